@@ -53,3 +53,15 @@ package enum
 //@   nopanic
 //@   modifies s.step, s.returnToStep.vals, s.returnToStep.vals[*]
 //@   ensures (result1 == nil) == (isSimpleEscape(c) || c == 'u')
+
+// C18: the rule's value list, in source order. The lazy compile behind it is
+// memoised (sync.ErrOnce) and is treated as a pure read of the rule - TRUSTED
+// (the enum compiler as a whole is not under contract, DESIGN.md section 9).
+//@ func (*Enum).Values()
+//@   props C18
+//@   trusted
+//@   maypanic
+//@   pure
+//@   ensures panics <==> e == nil
+//@   ensures result1 == nil ==> result0 == e.values
+//@   ensures forall k :: 0 <= k && k < len(result0) ==> len(result0[k].Value) <= 1000000000000
